@@ -1,7 +1,9 @@
 """Optional witness search (DESIGN.md 2.5): after the verifier has reported a failed obligation, try to find a
 concrete small input on which the REAL function (copied from the current /repo tree) disagrees with an
 executable transcription of the spec functions (witness/src/reference.rs).  Bounded random differential testing;
-it never decides anything: if it finds nothing the violation is still reported, with `no-failing-input-found`."""
+after a failed obligation it never decides anything: if it finds nothing the violation is still reported, with
+`no-failing-input-found`.  Second role (stand_in): when a run on a changed tree ends UNDECIDED, the same tests may turn it
+into a violation with a concrete input; they can never turn anything into a pass."""
 import json
 import os
 import shutil
